@@ -11,12 +11,14 @@ TECH_PROV = 'provenance / must-pass-through checks over symbolic MIR paths (rust
 CLAIMS = {
     'C01': dict(level='other', technique=TECH_TABLE + '; argument provenance of the entry points',
         text='Decides the finite tables through which every output edge is selected (in_result 64 rows, result transition of normal edges, flag '
-             'propagation from the predecessor, trivial-result table) and the plumbing of the 4 impls + 4 default methods into the single routine. '
+             'propagation from the predecessor, transitions of coincident twins, the is_vertical atom, trivial-result table), the endpoint guards of the '
+             'splitting step, the hole/parent cases and polygon assembly, and the plumbing of the 4 impls + 4 default methods into the single routine. '
              'Necessary, not sufficient: membership of a point in an actual output also depends on the float sweep order, which is not decided.',
         note=TB + 'Does not decide regions of actual outputs, sweep order, even-odd clause for self-crossing rings.', design='4/C01'),
     'C02': dict(level='other', technique=TECH_TABLE + '; Fig.4 parent-case table and hole/parent pairing on MIR paths',
         text='Decides the transition table of coincident twins, the four parent cases of Contour::initialize_from_context with the hole_of/hole_ids '
-             'pairing, the polygon assembly (exterior filter, rings from own points/hole_ids) and the prev_in_result table. Containment / '
+             'pairing, the polygon assembly (exterior filter, rings from own points/hole_ids; closure or loop form), the prev_in_result table, which events '
+             'are walked (16-row table), the pairing by other_pos, the per-vertex cycle of precompute_iteration_order and the shape and exits of the walk. Containment / '
              'disjointness / merging of actual rings is run-time geometry and is not decided.',
         note=TB, design='4/C02'),
     'C03': dict(level='other', technique='call-graph SCC incl. drop glue, RefCell guard live-range analysis, sentinel-index dominance, panic-site inventory with ledger',
@@ -28,11 +30,14 @@ CLAIMS = {
     'C04': dict(level='other', technique=TECH_PROV,
         text='Decides coordinate provenance: event points are input line endpoints or the caller-supplied division point; division points are the '
              'clamped payload of intersection() or an existing event point; contour points are result-event points; every reported intersection is '
-             'clamped to the common bounding box (clamp table checked); divisions are guarded against endpoints. Closedness, area, orientation and '
+             'clamped to the common bounding box (clamp table checked); the reported point equals, as an exact rational function of the eight input '
+             'coordinates, the intersection of the carrier lines (collinear arm: segment endpoints); divisions are guarded against endpoints; the '
+             'walk that turns result events into rings (selection, pairing, vertex cycle, exits). Closedness, area, orientation and '
              'numeric accuracy are not decided.',
         note=TB, design='4/C04'),
     'C05': dict(level='other', technique='oracle-free identities between the extracted decision tables; operation-dependent site inventory',
-        text='Decides the cross-operation identities of the selection/transition tables (complementarity, inclusion-exclusion pointwise) and that the '
+        text='Decides the cross-operation identities of the selection/transition tables (complementarity, inclusion-exclusion pointwise, equal transition of '
+             'same-transition twins under Intersection and Union) and that the '
              'operation influences the sweep only through the listed sites (exterior flag, early break for Intersection/Difference with the right bound).',
         note=TB + 'Areas / disjointness of actual outputs are not decided.', design='4/C05'),
     'C06': dict(level='other', technique=TECH_TABLE + '; provenance chain for the empty-operand law',
@@ -45,16 +50,19 @@ CLAIMS = {
              'on that edge and ring-invariant parameters; exactly the earlier event is flagged left; collapsed edges create nothing; nothing reads ring '
              'orientation. Equality of results across representations is not decided.',
         note=TB, design='4/C07'),
-    'C08': dict(level='proof', technique='homogeneity (degree) inference over all float comparisons and coordinate constructions in MIR paths',
+    'C08': dict(level='proof', technique='homogeneity (degree) inference over all float comparisons and coordinate constructions in MIR paths; provenance of event points',
         text='Decides soundly and completely the power-of-two scaling clause: every float comparison reachable from the API relates quantities of '
              'equal degree (or 0/inf) and every constructed/stored coordinate has degree 1, hence every operation and branch commutes exactly with '
-             'multiplication by 2^k. Translation, mirroring, transposition and quarter turns are NOT decided (the sweep is asymmetric by design).',
+             'multiplication by 2^k (exponent-dependent predicates such as is_normal are reported). Of the translation clause only a structural necessary '
+             'condition is checked (event points are input vertices, the clamped crossing point or existing event points - never re-computed overlap '
+             'ends); mirroring, transposition and quarter turns are NOT decided (the sweep is asymmetric by design).',
         note='Trusted: degree table of external callees (Float::min/max/abs, Into<f64>, next_after, robust::orient2d 1,1,1->2 with data-scaled error '
              'bounds), IEEE-754 exactness of 2^k scaling absent overflow/underflow; rustc MIR; extractor and rule code. Only the scaling clause is claimed.',
         design='4/C08'),
     'C09': dict(level='other', technique=TECH_PROV + '; comparison-atom table of the shortcut',
         text='Decides that each shortcut fires only under its geometric precondition: box accumulation (4 updates, operand routing), strict '
-             'disjointness test (16 rows), early break iff Intersection beyond min(max.x) / Difference beyond subject max.x, event recorded before break.',
+             'disjointness test (16 rows), early break iff Intersection beyond min(max.x) / Difference beyond subject max.x (the tests made before an event '
+             'is processed are evaluated for 4 operations x 27 orderings of event.x, sbbox.max.x, cbbox.max.x), event recorded before break.',
         note=TB + 'Equality of results with/without far parts is a relation between two runs and is not decided.', design='4/C09'),
     'C10': dict(level='other', technique='width-specific-code inventory with control; sibling table of the two NextAfter impls; provenance of orient2d arguments; degree inference; type-level witnesses',
         text='Decides that both instantiations run one generic body (no float-width casts, NumCast/size_of/TypeId/epsilon calls), that the two '
@@ -90,14 +98,18 @@ CLAIMS = {
         note=TB + 'The model of is_below / orient2d sign under argument permutation is checked against the code.', design='4/C15'),
     'C16': dict(level='other', technique=TECH_TABLE + ' with a symbolic model of the local events vector',
         text='Decides the return-code / division-request / edge-type table of possible_intersection (28 cases), the same-point rule (N2 is the listed '
-             'known finding), clamping, endpoint guards and the parameter-range structure of intersection_impl. Disjointness classification and accuracy '
+             'known finding), clamping, endpoint guards, the parameter-range structure of intersection_impl and the exact algebra of the reported point '
+             '(rational-function identity with the line intersection; helper bodies included). Disjointness classification and accuracy '
              'are numeric and not decided.',
         note=TB, design='4/C16'),
-    'C17': dict(level='other', technique='path tables of size bookkeeping and comparator direction; inventory of moves in lookup code; mirror-signature comparison of sibling bodies',
+    'C17': dict(level='other', technique='path tables of size bookkeeping, membership tests and comparator direction; symbolic in-order sequences of tree shapes per restructuring step; inventory of moves in lookup code; mirror-signature comparison of sibling bodies',
         text='Decides: length counters change by exactly one exactly on the paths that add/remove/yield an element; code reachable from the &self '
              'lookups moves only Box<Node>/Option<Box<Node>> (never node contents, keys or values) and frees no node, so references handed out stay valid; '
              'comparator is called (query, &node.key) with Less->left / Greater->right in next/prev/insert/splay; next/next_back, min/max, pop_left/right, the '
-             'two arms of splay are mirror images; SplaySet delegates to the like-named SplayTree method. Equivalence with a reference sorted map over all '
+             'two arms of splay are mirror images; SplaySet delegates to the like-named SplayTree method; get/get_mut/find_key/remove decide membership by '
+             'comparator == Equal after splaying for the key and splay stops only on Equal or a missing child; insert, remove, the consuming iterator and '
+             'every iteration / the exit of splay keep the in-order sequence of nodes (loop invariant of splay assumed at the head, shown preserved). '
+             'Equivalence with a reference sorted map over all '
              'histories is not decided.',
         note=TB, design='4/C17'),
     'C18': dict(level='other', technique='call-graph SCC over resolved callees and drop glue; typestate of node drops on MIR paths',
